@@ -273,6 +273,29 @@ func runC13(c *mon.Ctx) {
 			secs = append(secs, gen.RandomSection(r, siKinds[r.IntN(4)], 40+r.IntN(500), r.IntN(2)))
 		}
 		u := gen.NewPSIUnit(r, pid, int(i), secs, r.IntN(3), true)
+		if i%2 == 1 {
+			// sections of tables the library knows but does not decode (TDT, BAT, RST, ST, DIT, SIT) between the others: they must
+			// be skipped by their section_length, the sections after them are still delivered
+			ptr := int(u.Payload[0])
+			pl := append([]byte{}, u.Payload[:1+ptr]...)
+			off := 1 + ptr
+			for k := range secs {
+				if r.IntN(2) == 0 || k == 0 {
+					id := []byte{0x70, 0x4a, 0x71, 0x72, 0x7e, 0x7f}[r.IntN(6)]
+					n := 5
+					if id != 0x70 {
+						n = 1 + r.IntN(60)
+					}
+					raw := append([]byte{id, 0x70 | byte(n>>8), byte(n)}, gen.Bytes(r, n)...)
+					pl = append(pl, raw...)
+					c.Count("undecoded_table_sections_interleaved")
+				}
+				l := int(u.Payload[off+1]&0xf)<<8 | int(u.Payload[off+2])
+				pl = append(pl, u.Payload[off:off+3+l]...)
+				off += 3 + l
+			}
+			u.Payload = pl
+		}
 		gen.ChunkPSI(r, u, false, false)
 		st := gen.Mux(map[uint16][]*gen.Unit{pid: {u}}, repeatPID(pid, len(u.Plan)), nil)
 		run := RunDemux(st.Bytes, baseCfg("data"))
